@@ -200,6 +200,10 @@ class Repo:
                     tree = ast.parse(src, filename=path)
                 except SyntaxError as exc:
                     raise AnalysisError(f"cannot parse {rel}: {exc}")
+                # a function that equals its reference up to a renaming of locals is read under the reference names (alpha.py)
+                from .alpha import normalise_module
+
+                self.alpha_notes = getattr(self, "alpha_notes", []) + normalise_module(rel, tree)
                 mi = ModuleInfo(modname, path, rel, tree, src)
                 self._index_module(mi)
                 self.modules[modname] = mi
